@@ -41,6 +41,23 @@ Proof.
   apply text_eqb_eq in T2. subst k'. exists s, f. auto.
 Qed.
 
+(* every directive site hands its introspectable to an action and runs under an action method *)
+Lemma wiring_ok_true : wiring_ok = true.
+Proof. vm_compute. reflexivity. Qed.
+Lemma wiring_covers_true : wiring_covers = true.
+Proof. vm_compute. reflexivity. Qed.
+
+Theorem sites_wired s :
+  In s sites ->
+  exists w, In w sites_wiring /\ fst w = s_func s ++ [46%N] ++ s_var s /\ snd w = (true, true).
+Proof.
+  intros Hs. pose proof wiring_covers_true as C. unfold wiring_covers in C. rewrite forallb_forall in C.
+  specialize (C s Hs). apply existsb_exists in C. destruct C as (w & Hw & E). apply text_eqb_eq in E.
+  pose proof wiring_ok_true as T. unfold wiring_ok in T. rewrite forallb_forall in T. specialize (T w Hw).
+  apply andb_true_iff in T. destruct T as [T1 T2].
+  exists w. split; [exact Hw|]. split; [exact E|]. destruct w as [k [r a]]. simpl in *. subst. reflexivity.
+Qed.
+
 (* ---------- association lists *)
 Lemma assoc_set_same {B} k (v : B) l : assoc k (assoc_set k v l) = Some v.
 Proof.
